@@ -319,6 +319,17 @@ func VerifC25DiskFull(h *verifrt.H) {
 	if err2 == nil {
 		err2 = w.Sync()
 	}
+	// further blocks after the fault cleared (a stale write position would only show now)
+	e3 := Entry{Operation: OpInsert, Key: "d", Data: h.Bytes("d3", 1)}
+	err3 := w.WriteEntry(e3)
+	if err3 == nil {
+		err3 = w.Sync()
+	}
+	e4 := Entry{Operation: OpInsert, Key: "e", Data: h.Bytes("d4", 1)}
+	err4 := w.WriteEntry(e4)
+	if err4 == nil {
+		err4 = w.Sync()
+	}
 	w.Close()
 	idx, _, lerr := vfLoad(h, path)
 	h.Assert(lerr == nil, "diskfull-load-ok")
@@ -334,6 +345,23 @@ func VerifC25DiskFull(h *verifrt.H) {
 	if err2 == nil {
 		v, ok := idx["c"]
 		h.Assert(ok && vfBytesEq(v, e2.Data), "diskfull-entry-after-fault-cleared-present")
+	}
+	if err3 == nil {
+		v, ok := idx["d"]
+		h.Assert(ok && vfBytesEq(v, e3.Data), "diskfull-entry-after-fault-cleared-present")
+	}
+	if err4 == nil {
+		v, ok := idx["e"]
+		h.Assert(ok && vfBytesEq(v, e4.Data), "diskfull-entry-after-fault-cleared-present")
+	}
+	// and a new session on the same file works too
+	w2, oerr := NewFileWriter(path, bs)
+	h.Assert(oerr == nil, "diskfull-reopen-ok")
+	if oerr == nil {
+		e5 := Entry{Operation: OpInsert, Key: "f", Data: []byte{5}}
+		h.Assert(w2.WriteEntry(e5) == nil && w2.Close() == nil, "diskfull-append-after-reopen")
+		idx2, _, lerr2 := vfLoad(h, path)
+		h.Assert(lerr2 == nil && len(idx2) == len(idx)+1, "diskfull-reload-after-reopen")
 	}
 	h.ClearKnown()
 	h.Cover("end")
